@@ -22,14 +22,20 @@ def design(w, share, ext, deep, sn, inn, imid):
         Inst("c0", leaf_ext, {"a": Sig("a"), "b": Sig("m")})][: 3 if ext else 2])
     leaf2 = leaf if share else Mod("Leaf2", ports=[("a", w), ("g", 1)], insts=[
         Inst("u", leaf_ext, {"a": Sig("a"), "b": Sig("g")})])
+    # a self-contained (port-less) module with internal nets, instantiated at several places
+    cell0 = Mod("Cell0", sigs=[("p", 1), ("q", w)], insts=[
+        Inst("ra", Prim("R", dict(r=3)), {"p": Sig("p"), "n": Sig("p")}),
+        Inst("ca", leaf_ext, {"a": Sig("q"), "b": Sig("p")})])
     mid = Mod("Mid", ports=[("a", w), ("g", 1)], sigs=[("kk", w), ("h", 1)], insts=[
+        Inst("z", cell0, {}),
         Inst("l0", leaf, {"a": Sig("a"), "g": Sig("g")}),
         Inst(INSTN[imid] if imid >= 0 else "l1", leaf2, {"a": Sig("kk"), "g": Sig("h")}),
         Inst("l2", leaf, {"a": Sig("kk"), "g": Sig("g")})])
     top = Mod("Top", ports=[("t", 1), ("pa", w)], sigs=[(SIGN[sn], w), ("g2", 1)], insts=[
         Inst("m0", mid, {"a": Sig(SIGN[sn]), "g": Sig("t")}),
         Inst("m1", mid, {"a": Sig("pa"), "g": Sig("g2")}),
-        Inst(INSTN[inn], leaf2, {"a": Sig(SIGN[sn]), "g": Sig("g2")})])
+        Inst(INSTN[inn], leaf2, {"a": Sig(SIGN[sn]), "g": Sig("g2")}),
+        Inst("z0", cell0, {}), Inst("z1", cell0, {})])
     if deep:
         top.name = "Upper"
         top = Mod("Top", ports=[("t", 1), ("u", 1), ("pb", w)], insts=[
